@@ -197,6 +197,9 @@ impl Prop for C15 {
                     }
                 }
             }
+            for n in [1u64, 2, 3, 5, 8, 13] {
+                v.push(json!({"f": "lib-use", "n": n, "seed": mix(&[seed, 0xC15B, stream, n])}));
+            }
             // channel id text form
             for k in 0..4u64 {
                 v.push(json!({"f": "chanid-text", "hseed": seed, "stream": stream, "variant": k}));
@@ -220,6 +223,15 @@ impl Prop for C15 {
         match case["f"].as_str().unwrap_or("") {
             "atom" => run_atom(&mut o, case),
             "chanid-text" => run_chanid(&mut o, case),
+            "lib-use" => match case["n"].as_u64().unwrap_or(0) {
+                1 => lib_use::<1>(&mut o, case["seed"].as_u64().unwrap_or(0)),
+                2 => lib_use::<2>(&mut o, case["seed"].as_u64().unwrap_or(0)),
+                3 => lib_use::<3>(&mut o, case["seed"].as_u64().unwrap_or(0)),
+                5 => lib_use::<5>(&mut o, case["seed"].as_u64().unwrap_or(0)),
+                8 => lib_use::<8>(&mut o, case["seed"].as_u64().unwrap_or(0)),
+                13 => lib_use::<13>(&mut o, case["seed"].as_u64().unwrap_or(0)),
+                _ => crate::harness_error("C15: bad N"),
+            },
             "wire-diff" => crate::props::world_props::run_wire_diff(&mut o, case),
             _ => crate::harness_error("C15: bad case family"),
         }
@@ -232,7 +244,7 @@ impl Prop for C15 {
         Vec::new()
     }
     fn rule(&self) -> String {
-        "three case families. atom: (harvested honest encoding of a registered type, one atom, one substitute from {identity, x off the curve, point outside the subgroup, other valid element, q, q+1, 2^256-1, close tag, zero, 2^63, 2^64-1, ...}) decoded with the real decoder, plus the fault-free round trip of every sample; chanid-text: print/parse of channel ids and malformed texts; wire-diff: one seeded protocol history executed with objects handed over in process and again with every hop and every stored stage encoded and decoded, histories compared byte for byte. Distinct = distinct (type, sample, atom, substitute) or distinct plan; non-trivial = a substitution was made or the history contains a completed payment".into()
+        "four case families. lib-use: for each N in {1,2,3,5,8,13} keys, parameters, signatures and proofs are decoded and used next to the originals (equality, same signature under the same entropy, same commitments, same challenges and verification results). atom: (harvested honest encoding of a registered type, one atom, one substitute from {identity, x off the curve, point outside the subgroup, other valid element, q, q+1, 2^256-1, close tag, zero, 2^63, 2^64-1, ...}) decoded with the real decoder, plus the fault-free round trip of every sample; chanid-text: print/parse of channel ids and malformed texts; wire-diff: one seeded protocol history executed with objects handed over in process and again with every hop and every stored stage encoded and decoded, histories compared byte for byte. Distinct = distinct (type, sample, atom, substitute) or distinct plan; non-trivial = a substitution was made or the history contains a completed payment".into()
     }
     fn assumptions(&self) -> Vec<String> {
         vec![
@@ -242,7 +254,7 @@ impl Prop for C15 {
         ]
     }
     fn required_probes(&self, _tier: Tier) -> Vec<&'static str> {
-        vec!["probe.refused", "probe.accepted_after_substitution", "probe.roundtrip_ok", "probe.wire_diff_payment_completed"]
+        vec!["probe.refused", "probe.accepted_after_substitution", "probe.roundtrip_ok", "probe.wire_diff_payment_completed", "probe.lib_use_checked"]
     }
 }
 
@@ -294,6 +306,91 @@ fn run_atom(o: &mut Outcome, case: &Value) {
     }
     o.nontrivial = faulted;
     o.shape = mix(&[ty as u64, stream, idx as u64, crate::hash_str(&m.to_string())]);
+    o.log_hash = mix(&[o.shape, o.violations.len() as u64]);
+}
+
+/// Layer B: decoded keys, parameters, signatures and proofs behave exactly like the originals in
+/// the operations that use them (same signatures under the same entropy, same commitments, same
+/// verification results, same challenges).
+fn lib_use<const N: usize>(o: &mut Outcome, seed: u64) {
+    use crate::rng::SimRng;
+    use bls12_381::{G1Projective, G2Projective};
+    use zkchannels_crypto::{pedersen::*, pointcheval_sanders::*, proofs::*, Message};
+    let mut rng = SimRng::new(seed, &format!("c15/lib-use/{}", N));
+    let kp = KeyPair::<N>::new(&mut rng);
+    let p1 = PedersenParameters::<G1Projective, N>::new(&mut rng);
+    let p2 = PedersenParameters::<G2Projective, N>::new(&mut rng);
+    let msg = Message::<N>::random(&mut rng);
+    macro_rules! rt {
+        ($v:expr, $ty:ty, $name:expr) => {{
+            let b = crate::atoms::encode($v);
+            match bincode::deserialize::<$ty>(&b) {
+                Ok(x) => x,
+                Err(e) => {
+                    o.violate("honest-encoding-rejected", $name, format!("decoder refuses an honestly produced {}: {}", $name, e));
+                    return;
+                }
+            }
+        }};
+    }
+    let kp2 = rt!(&kp, KeyPair<N>, "KeyPair");
+    let p1b = rt!(&p1, PedersenParameters<G1Projective, N>, "PedersenParameters<G1>");
+    let p2b = rt!(&p2, PedersenParameters<G2Projective, N>, "PedersenParameters<G2>");
+    o.events += 3;
+    if kp2 != kp || p1b != p1 || p2b != p2 {
+        o.violate("decoded-value-differs", "keys-and-parameters", format!("decode(encode(v)) != v for a key pair or Pedersen parameters (N = {})", N));
+    }
+    // same entropy, same signature
+    let s1 = msg.sign(&mut SimRng::new(seed, "c15/lib-use/sign"), &kp);
+    let s2 = msg.sign(&mut SimRng::new(seed, "c15/lib-use/sign"), &kp2);
+    o.events += 2;
+    if crate::atoms::encode(&s1) != crate::atoms::encode(&s2) {
+        o.violate("decoded-value-behaves-differently", "KeyPair/sign", format!("a decoded key pair signs differently under the same entropy (N = {})", N));
+    }
+    let s1d = rt!(&s1, Signature, "Signature");
+    if !s1.verify(kp.public_key(), &msg) || !s1d.verify(kp2.public_key(), &msg) {
+        o.violate("decoded-value-behaves-differently", "Signature/verify", format!("a decoded signature / key does not verify where the original does (N = {})", N));
+    }
+    let bf = zkchannels_crypto::BlindingFactor::new(&mut rng);
+    if crate::atoms::encode(&msg.commit(&p1, bf)) != crate::atoms::encode(&msg.commit(&p1b, bf)) || crate::atoms::encode(&msg.commit(&p2, bf)) != crate::atoms::encode(&msg.commit(&p2b, bf)) {
+        o.violate("decoded-value-behaves-differently", "PedersenParameters/commit", format!("decoded Pedersen parameters commit differently (N = {})", N));
+    }
+    // proofs: decoded proof verifies under the challenge derived from it, and the challenge is the prover's
+    let b = SignatureProofBuilder::generate_proof_commitments(&mut rng, msg.clone(), s1, &[None; N], kp.public_key());
+    let c = ChallengeBuilder::new().with(&b).with(kp.public_key()).finish();
+    let proof = b.generate_proof_response(c);
+    let proof2 = rt!(&proof, SignatureProof<N>, "SignatureProof");
+    let c2 = ChallengeBuilder::new().with(&proof2).with(kp2.public_key()).finish();
+    o.events += 2;
+    if c2.to_scalar() != c.to_scalar() || !proof2.verify_knowledge_of_signature(kp2.public_key(), c2) {
+        o.violate("decoded-value-behaves-differently", "SignatureProof/verify", format!("a decoded signature proof does not verify under the decoded key (N = {})", N));
+    }
+    let rb = SignatureRequestProofBuilder::generate_proof_commitments(&mut rng, msg.clone(), &[None; N], kp.public_key());
+    let rbf = rb.message_blinding_factor();
+    let c = ChallengeBuilder::new().with(&rb).finish();
+    let rp = rb.generate_proof_response(c);
+    let rp2 = rt!(&rp, SignatureRequestProof<N>, "SignatureRequestProof");
+    match (rp.verify_knowledge_of_opening(kp.public_key(), c), rp2.verify_knowledge_of_opening(kp2.public_key(), c)) {
+        (Some(a), Some(bm)) => {
+            let x = a.blind_sign(&kp, &mut SimRng::new(seed, "c15/lib-use/blind"));
+            let y = bm.blind_sign(&kp2, &mut SimRng::new(seed, "c15/lib-use/blind"));
+            let yd = rt!(&y, BlindedSignature, "BlindedSignature");
+            if crate::atoms::encode(&x) != crate::atoms::encode(&y) || !yd.unblind(rbf).verify(kp2.public_key(), &msg) {
+                o.violate("decoded-value-behaves-differently", "SignatureRequestProof/blind-sign", format!("blind signing through decoded objects differs (N = {})", N));
+            }
+        }
+        _ => o.violate("decoded-value-behaves-differently", "SignatureRequestProof/verify", format!("a (decoded) signature request proof does not verify (N = {})", N)),
+    }
+    let cb = CommitmentProofBuilder::generate_proof_commitments(&mut rng, msg.clone(), &[None; N], &p2);
+    let c = ChallengeBuilder::new().with(&cb).finish();
+    let cp = cb.generate_proof_response(c);
+    let cp2 = rt!(&cp, CommitmentProof<G2Projective, N>, "CommitmentProof<G2>");
+    if !cp2.verify_knowledge_of_opening(&p2b, c) {
+        o.violate("decoded-value-behaves-differently", "CommitmentProof/verify", format!("a decoded commitment proof does not verify under decoded parameters (N = {})", N));
+    }
+    o.bump("probe.lib_use_checked");
+    o.nontrivial = true;
+    o.shape = mix(&[0xC15B, N as u64, seed]);
     o.log_hash = mix(&[o.shape, o.violations.len() as u64]);
 }
 
